@@ -2,6 +2,7 @@ package checks
 
 import (
 	"fmt"
+	"regexp"
 	"sort"
 
 	"github.com/gookit/rux"
@@ -42,6 +43,20 @@ type c02Case struct {
 	Pattern string `json:"pattern"`
 	Cache   int    `json:"cache"` // 0 = caching disabled
 	First   string `json:"first_path"`
+	Strict  bool   `json:"strict_last_slash,omitempty"`
+	Twin    string `json:"twin,omitempty"` // "", "before", "after": a same-shape route with other variable names under POST
+}
+
+var c02VarName = regexp.MustCompile(`\{([a-z]+)`)
+
+// same pattern with every (non-global) variable renamed
+func c02Twin(pattern string) string {
+	return c02VarName.ReplaceAllStringFunc(pattern, func(m string) string {
+		if _, ok := refmodel.GlobalVars[m[1:]]; ok {
+			return m
+		}
+		return m + "z"
+	})
 }
 
 // all candidate paths for a pattern: every optional depth x every value tuple, plus perturbations
@@ -129,6 +144,30 @@ func c02Gen(tier string, emit func(c02Case)) {
 				emit(c02Case{Pattern: pat, Cache: cc, First: paths[i]})
 			}
 		}
+		// StrictLastSlash: '/x' and '/x/' are different request paths (and different cache keys)
+		s2 := stride * 3
+		if tier == "thorough" {
+			s2 = 1
+		}
+		for _, cc := range []int{0, 2} {
+			for i := 0; i < len(paths); i += s2 {
+				emit(c02Case{Pattern: pat, Cache: cc, First: paths[i], Strict: true})
+			}
+		}
+		// a twin route of the same shape but other variable names, registered before / after
+		if c02Twin(pat) != pat {
+			s3 := stride * 6
+			if tier == "thorough" {
+				s3 = 4
+			}
+			for _, tw := range []string{"before", "after"} {
+				for _, cc := range []int{0, 2} {
+					for i := 0; i < len(paths); i += s3 {
+						emit(c02Case{Pattern: pat, Cache: cc, First: paths[i], Twin: tw})
+					}
+				}
+			}
+		}
 	}
 }
 
@@ -139,7 +178,7 @@ func c02Run(c c02Case, st *fw.Stats) []fw.Viol {
 			viols = append(viols, fw.Viol{Sig: sig, Msg: msg})
 		}
 	}
-	pt, err := refmodel.CachedPattern(refmodel.Norm(c.Pattern, false))
+	pt, err := refmodel.CachedPattern(refmodel.Norm(c.Pattern, c.Strict))
 	if err != nil {
 		panic(err)
 	}
@@ -147,13 +186,24 @@ func c02Run(c c02Case, st *fw.Stats) []fw.Viol {
 	if c.Cache > 0 {
 		opts = append(opts, rux.CachingWithNum(uint16(c.Cache)))
 	}
+	if c.Strict {
+		opts = append(opts, rux.StrictLastSlash)
+	}
 	defs := []refmodel.RouteDef{{Path: c.Pattern, Methods: []string{"GET"}}}
+	mainIdx := "0|"
+	switch c.Twin {
+	case "before":
+		defs = []refmodel.RouteDef{{Path: c02Twin(c.Pattern), Methods: []string{"POST"}}, defs[0]}
+		mainIdx = "1|"
+	case "after":
+		defs = append(defs, refmodel.RouteDef{Path: c02Twin(c.Pattern), Methods: []string{"POST"}})
+	}
 	paths := c02PathCache[c.Pattern]
 	if paths == nil {
 		paths = c02Paths(c.Pattern)
 	}
 	where := func(seq []string, i int) string {
-		return fmt.Sprintf("route GET %s, cache=%d, request #%d of history %q", c.Pattern, c.Cache, i+1, seq)
+		return fmt.Sprintf("routes [%s], cache=%d, strict=%v, request #%d of history %q", defsString(defs), c.Cache, c.Strict, i+1, seq)
 	}
 	for _, q := range paths {
 		rec := &hitRec{}
@@ -165,7 +215,7 @@ func c02Run(c c02Case, st *fw.Stats) []fw.Viol {
 		seq := []string{c.First, q, c.First, q}
 		for i, p := range seq {
 			st.Evals++
-			np := refmodel.Norm(p, false)
+			np := refmodel.Norm(p, c.Strict)
 			want := pt.Matches(np)
 			if want && !pt.Static {
 				st.Nontrivial++
@@ -194,7 +244,7 @@ func c02Run(c c02Case, st *fw.Stats) []fw.Viol {
 					break
 				}
 				if want {
-					exp := "0|" + canonParams(ps)
+					exp := mainIdx + canonParams(ps)
 					if rec.n != 1 || resp.Body.String() != exp {
 						add("params:context", fmt.Sprintf("%s: handler ran %d time(s) and saw %q, Match reported %q", where(seq, i), rec.n, resp.Body.String(), exp))
 					}
